@@ -20,15 +20,15 @@ theorem getI_set {a : Array Int} {i j : Int} (v : Int) (h0 : 0 ≤ i) (h1 : i < 
   unfold getI
   by_cases h : j = i
   · subst h
-    simp [Array.getElem?_setIfInBounds, h2]
+    simp [h2]
   · have : i.toNat ≠ j.toNat := by omega
-    simp [Array.getElem?_setIfInBounds, this, h]
+    simp [this, h]
 
 theorem getI_replicate (n : Nat) (i : Int) : getI (Array.replicate n (-1)) i = -1 := by
   unfold getI
   by_cases h : i.toNat < n
-  · simp [Array.getElem?_replicate, h]
-  · simp [Array.getElem?_replicate, h]
+  · simp [h]
+  · simp [h]
 
 theorem slice_ok {α : Type} (s : List α) (lo hi : Int) (h0 : 0 ≤ lo) (h1 : lo ≤ hi) (h2 : hi ≤ s.length) :
     slice s lo hi = .ok ((s.drop lo.toNat).take (hi - lo).toNat) := by
